@@ -100,6 +100,14 @@ func (e *Engine) exec(fr *Frame, blk *ssa.BasicBlock, idx int, st *State, k func
 				fr.Vals[x] = ref
 				continue
 			}
+			if at, isArr := under(t).(*types.Array); isArr && x.Heap && x.Comment == "makeslice" {
+				// make([]T, constant): go/ssa allocates an array and slices it; the array is a
+				// fresh zero-filled region like any other make
+				n := e.i64(at.Len())
+				sv := e.allocSlice(st, at.Elem(), n, n, "make@"+e.pos(x.Pos()))
+				fr.Vals[x] = &PtrV{Kind: PArrRegion, Reg: sv.Region, T: t}
+				continue
+			}
 			e.nextCell++
 			cell := &Cell{ID: e.nextCell, Name: x.Comment, T: t}
 			st.Cells[cell] = e.zero(t)
@@ -549,6 +557,8 @@ func (e *Engine) sliceOp(st *State, fr *Frame, x *ssa.Slice) Value {
 			e.oblige(st, fr, "safety:slice-bounds", "array", c.And(c.Sle(e.i64(0), lo), c.Sle(lo, hi), c.Sle(hi, n)), e.pos(x.Pos()))
 		}
 		switch b.Kind {
+		case PArrRegion:
+			return &SliceV{Region: b.Reg, Off: lo, Len: c.Sub(hi, lo), Cap: c.Sub(n, lo), Elem: at.Elem()}
 		case PField:
 			return &SliceV{Region: e.regionOfNoted(st, b.Key, b.Obj), Off: lo, Len: c.Sub(hi, lo), Cap: c.Sub(n, lo), Elem: at.Elem()}
 		case PCell:
